@@ -62,6 +62,9 @@ warnings.filterwarnings("ignore", message="StreamTeeHub requesting")
 Z = F(0)
 COEFFS = [F(1), F(-1), F(2), F(-2), F(3), F(1, 2), F(-1, 2), F(1, 4), F(3, 2), F(-3, 4), F(1, 3), F(-2, 3), F(5), F(-5, 2)]
 DYADIC = [F(1), F(-1), F(2), F(-2), F(3), F(1, 2), F(-1, 2), F(1, 4), F(3, 2), F(-3, 4), F(5), F(-5, 2)]
+# integer coefficients keep the exec'd filter loop of the impl exact on Fraction samples ("3 * d1", "(expr) / (2)"):
+# a non-integer Fraction is formatted as "1/2 * d1", i.e. a float, into the generated source
+INTS = [F(1), F(-1), F(2), F(-2), F(3), F(-3), F(4), F(5), F(-5), F(7)]
 UNITS = [F(1), F(1), F(-1), F(2), F(1, 2), F(-2)]
 SCAL_R = ("radds", "rsubs", "rmuls", "rdivs")
 SCAL_L = ("adds", "subs", "muls", "divs")
@@ -121,6 +124,10 @@ def sig_close(a, b, tol):
 # ----------------------------------------------------------------------------
 # generators
 # ----------------------------------------------------------------------------
+def _units(pool):
+    return [u for u in UNITS if u.denominator == 1] if pool is INTS else UNITS
+
+
 def _coeff(rng, pool=COEFFS, zero_p=0.06):
     if rng.random() < zero_p:
         return F(0)
@@ -152,7 +159,7 @@ def _leaf(rng, causal=False, pool=COEFFS):
         nb = rng.randint(0 if not causal else 1, 4)
         na = rng.randint(1, 4)
         b = [enc(_coeff(rng, pool, 0.15)) for _ in range(nb)]
-        a = [enc(rng.choice(UNITS))] + [enc(_coeff(rng, pool, 0.2)) for _ in range(na - 1)]
+        a = [enc(rng.choice(_units(pool)))] + [enc(_coeff(rng, pool, 0.2)) for _ in range(na - 1)]
         if not causal and rng.random() < 0.15:
             a = [0] + a                      # leading zero: the constructor shifts both polynomials
         return ["fl", b, a]
@@ -161,16 +168,16 @@ def _leaf(rng, causal=False, pool=COEFFS):
     nlo = dlo if causal else rng.choice([dlo, dlo, dlo, dlo + 1, dlo - 1, 0])
     if causal:
         nlo = dlo + rng.choice([0, 0, 0, 1])
-    den = _pairs(rng, dlo, rng.choice([1, 1, 2, 2, 3]), pool, lead=UNITS if causal else [c for c in pool if c != 0])
+    den = _pairs(rng, dlo, rng.choice([1, 1, 2, 2, 3]), pool, lead=_units(pool) if causal else [c for c in pool if c != 0])
     if causal and den and min(k for k, _ in den) != dlo:
-        den = den + [[dlo, enc(rng.choice(UNITS))]]
+        den = den + [[dlo, enc(rng.choice(_units(pool)))]]
     num = _pairs(rng, nlo, rng.choice([0, 1, 1, 2, 2, 3]), pool)
     return ["f", num, den]
 
 
 def _small(rng, pool=COEFFS):
     """a filter of order <= 2 with at most two terms per polynomial"""
-    den = _pairs(rng, 0, rng.choice([1, 2]), pool, lead=UNITS)[:2]
+    den = _pairs(rng, 0, rng.choice([1, 2]), pool, lead=_units(pool))[:2]
     num = _pairs(rng, rng.choice([0, 0, 1]), rng.choice([0, 1, 2, 2]), pool)
     f = lambda ps: [p for p in ps if p[0] <= 2]
     return ["f", f(num), f(den) or [[0, 1]]]
@@ -178,7 +185,7 @@ def _small(rng, pool=COEFFS):
 
 def _mono(rng, pool=COEFFS):
     """monomial filters c*z^-k (both polynomials have one term: the no-flip branch of __pow__)"""
-    return ["f", [[rng.randint(-2, 3), enc(rng.choice(pool))]], [[0, enc(rng.choice(UNITS))]]]
+    return ["f", [[rng.randint(-2, 3), enc(rng.choice(pool))]], [[0, enc(rng.choice(_units(pool)))]]]
 
 
 def _same_den(rng, t, pool=COEFFS):
@@ -331,13 +338,14 @@ def _gen_eq(rng):
 def _gen_list(rng, quick):
     kind = rng.choice(["cascade", "parallel", "parallel"])
     n = rng.choice([0, 1, 2, 2, 3, 3, 4])
+    pool = INTS if rng.random() < 0.75 else DYADIC
     fs = []
     for i in range(n):
         if fs and rng.random() < 0.35:
             base = rng.choice(fs)
-            fs.append(_same_den(rng, base, DYADIC) if base[0] in ("f", "fl") and rng.random() < 0.7 else base)
+            fs.append(_same_den(rng, base, pool) if base[0] in ("f", "fl") and rng.random() < 0.7 else base)
         else:
-            fs.append(_leaf(rng, causal=rng.random() < 0.9, pool=DYADIC))
+            fs.append(_leaf(rng, causal=rng.random() < 0.9, pool=pool))
     return {"entry": "list", "kind": kind, "fs": fs, "xs": _signal(rng)}
 
 
@@ -390,13 +398,13 @@ def generate(rng, tier, scale=1):
         cases.extend(_fixed_cases())
     for i in range(n_tree):
         causal = rng.random() < 0.35
-        pool = DYADIC if (causal or rng.random() < 0.3) else COEFFS
+        pool = rng.choice([INTS, INTS, DYADIC]) if (causal or rng.random() < 0.3) else COEFFS
         t = _gen_tree(rng, rng.choice([1, 2, 2, depth, depth]), causal, pool)
         cases.append({"entry": "tree", "tree": t, "xs": _signal(rng)})
     for i in range(n_laws):
         causal = rng.random() < 0.7
         d = rng.choice([0, 0, 1, 1, 2])
-        pool = DYADIC if causal else COEFFS
+        pool = rng.choice([INTS, INTS, INTS, DYADIC]) if causal else rng.choice([COEFFS, INTS])
         if i % 3 == 0:
             # substitution laws: small operands (the degree of f(h) grows with order(f)^2 * order(h))
             cases.append({"entry": "laws", "subst": True,
@@ -404,13 +412,13 @@ def generate(rng, tier, scale=1):
                           "h": rng.choice([["z"], ["pow", ["z"], -1], ["pow", ["z"], -2], _mono(rng, pool), _small(rng, pool),
                                            _small(rng, pool)]),
                           "n": rng.choice([0, 1, 2]), "m": rng.choice([0, 1]), "k": rng.choice([0, 1, 2]),
-                          "c": enc(_coeff(rng, DYADIC, 0.1)), "xs": _signal(rng, rng.choice([1, 4]))})
+                          "c": enc(_coeff(rng, pool if pool is INTS else DYADIC, 0.1)), "xs": _signal(rng, rng.choice([1, 4]))})
             continue
         cases.append({"entry": "laws", "subst": False,
                       "f": _gen_tree(rng, d, causal, pool, 8), "g": _gen_tree(rng, d, causal, pool, 8),
                       "h": _gen_tree(rng, min(d, 1), causal, pool, 6),
                       "n": rng.choice([0, 1, 2, 2, 3]), "m": rng.choice([0, 1, 1, 2]),
-                      "k": rng.choice([0, 1, 2, 3, 5]), "c": enc(_coeff(rng, DYADIC, 0.1)),
+                      "k": rng.choice([0, 1, 2, 3, 5]), "c": enc(_coeff(rng, pool if pool is INTS else DYADIC, 0.1)),
                       "xs": _signal(rng, rng.choice([1, 4, 6, 8]))})
     for i in range(n_eq):
         cases.append(_gen_eq(rng))
@@ -524,9 +532,10 @@ def _laws(c):
     def sig(a, b):
         a, b = a(), b()
         if any(isinstance(v, float) for v in a + b):
+            # the impl's generated loop went through binary floats (a non-integer coefficient was formatted into
+            # the source): rounding errors are amplified by the poles, so the law is only compared in the exact regime
             flt[0] = True
-            a, b = [F(v) for v in a], [F(v) for v in b]
-            return sig_close(a, b, 1e-9)
+            return None
         return sig_close(a, b, 0)
 
     def it(filt, cnt, x):
@@ -566,7 +575,8 @@ def _laws(c):
     out = OrderedDict()
     for name, fn in L.items():
         try:
-            out[name] = bool(fn())
+            r = fn()
+            out[name] = None if r is None else bool(r)
         except Exception as e:
             out[name] = "err:" + err_kind(e)
     return out, flt[0]
@@ -625,15 +635,36 @@ def impl(c):
                     acc = acc + g
             except Exception:
                 pass
+        amp = 1.0
+        for f in fs:
+            try:
+                amp *= _amplification(_pair(f)[1], len(c.get("xs", [])))
+            except Exception:
+                pass
         return {"numpoly": poly("numpoly"), "denpoly": poly("denpoly"), "shortcut": shortcut,
-                "out": _out(filt, c.get("xs", []))}
+                "out": _out(filt, c.get("xs", [])), "amp": amp}
     raise ValueError("unknown entry " + e)
 
 
 # ----------------------------------------------------------------------------
 # comparison
 # ----------------------------------------------------------------------------
-def _cmp_out(io_out, want, tol_hint):
+def _amplification(den, n):
+    """sum |impulse response of 1/den| over n samples (exact): how much the recursion amplifies a rounding error"""
+    if not den or 0 not in den or den[0] == 0:
+        return 1.0
+    a0 = den[0]
+    g = []
+    for i in range(max(n, 1)):
+        acc = F(1) if i == 0 else F(0)
+        for k, v in den.items():
+            if 0 < k <= i:
+                acc -= v * g[i - k]
+        g.append(acc / a0)
+    return float(sum(abs(v) for v in g)) + 1.0
+
+
+def _cmp_out(io_out, want, tol_hint, amp=1.0):
     """impl output observation vs a list (or {"err":..}) from the driver; returns None when equal"""
     if isinstance(want, dict) and "err" in want:
         if "err" in io_out and io_out["err"] == want["err"]:
@@ -641,7 +672,7 @@ def _cmp_out(io_out, want, tol_hint):
         return "impl %s, expected %s" % (json.dumps(io_out)[:120], want["err"])
     if "err" in io_out:
         return "impl raised %s, expected %s" % (io_out["err"], json.dumps(want)[:120])
-    tol = 1e-9 if (io_out["float"] or tol_hint) else 0
+    tol = 1e-10 * amp if (io_out["float"] or tol_hint) else 0
     a, b = [dec(v) for v in io_out["ys"]], [dec(v) for v in want]
     if sig_close(a, b, tol):
         return None
@@ -673,7 +704,8 @@ def compare(c, io, drv):
                 out.append(("model", "impl denominator is empty"))
             if io["causal"] != m["causal"]:
                 out.append(("model", "is_causal: impl=%r model=%r" % (io["causal"], m["causal"])))
-            d = _cmp_out(io["out"], m["out"], tol)
+            amp = _amplification(dm, len(c.get("xs", [])))
+            d = _cmp_out(io["out"], m["out"], tol, amp)
             if d:
                 out.append(("model", "call: " + d))
         if s is not None:
@@ -682,7 +714,7 @@ def compare(c, io, drv):
                 out.append(("spec", "rational function: impl=%s / %s spec=%s / %s" % (
                     json.dumps(io["num"])[:120], json.dumps(io["den"])[:120], json.dumps(s["num"])[:120], json.dumps(s["den"])[:120])))
             elif s["out"] is not None:
-                d = _cmp_out(io["out"], s["out"], tol)
+                d = _cmp_out(io["out"], s["out"], tol, _amplification(di, len(c.get("xs", []))))
                 if d:
                     out.append(("spec", "response of a causal filter: " + d))
         return out
@@ -695,8 +727,8 @@ def compare(c, io, drv):
             return [("model", "model predicts %s, impl evaluated the laws" % m["err"])]
         for name, mv in m.items():
             iv = io["laws"].get(name)
-            if mv is None:
-                continue               # operand missing / law not applicable in the model
+            if mv is None or iv is None:
+                continue               # operand missing / law not applicable in the model / float regime on the impl side
             if iv != mv:
                 out.append(("model", "law %s: impl=%r model=%r" % (name, iv, mv)))
             if iv is not True:
@@ -760,11 +792,11 @@ def compare(c, io, drv):
                 out.append(("spec", "%s numpoly/denpoly = %s / %s is not the %s of the parts %s / %s" % (
                     c["kind"], json.dumps(pi_n["terms"])[:100], json.dumps(pi_d["terms"])[:100],
                     "product" if c["kind"] == "cascade" else "sum", json.dumps(s["num"])[:100], json.dumps(s["den"])[:100])))
-        d = _cmp_out(io["out"], m["out"], 0)
+        d = _cmp_out(io["out"], m["out"], 0, io.get("amp", 1.0))
         if d:
             out.append(("model", "call: " + d))
         if s is not None and s["out"] is not None:
-            d = _cmp_out(io["out"], s["out"], 0)
+            d = _cmp_out(io["out"], s["out"], 0, io.get("amp", 1.0))
             if d:
                 out.append(("spec", "%s output is not the %s of the parts' outputs: %s" % (
                     c["kind"], "composition" if c["kind"] == "cascade" else "sum", d)))
@@ -983,7 +1015,7 @@ def classify(c, io, drv):
         if "err" in io:
             return "list:%s:raises:%s" % (c["kind"], io["err"])
         s = drv.get("spec")
-        bad_out = s is not None and s.get("out") is not None and _cmp_out(io["out"], s["out"], 0)
+        bad_out = s is not None and s.get("out") is not None and _cmp_out(io["out"], s["out"], 0, io.get("amp", 1.0))
         if bad_out:
             return "list:%s:output" % c["kind"]
         if c["kind"] == "parallel" and io.get("shortcut") and "err" not in io["numpoly"] and "err" not in io["denpoly"]:
